@@ -2154,3 +2154,13 @@ Proof.
   rewrite read_is_decode by assumption. rewrite Hv.
   exact (burst_in_payload_detected H (fun x => x) decompress A B P rest r e Hval He Hl Hb).
 Qed.
+
+(* any single flipped bit of header/stored data *)
+Lemma single_bit_detected : forall H decompress A B P rest r e,
+  valid_at H decompress A B P rest r -> all_bytes e -> length P = length e ->
+  (exists pre post, bytes_bits e = repeat false pre ++ true :: repeat false post) ->
+  decode_view H decompress (A ++ B ++ xor_bytes P e ++ rest) = RErr ECrc.
+Proof.
+  intros H decompress A B P rest r e Hv He Hl Hb.
+  exact (burst_in_payload_detected H (fun x => x) decompress A B P rest r e Hv He Hl (burst32_single_bit e Hb)).
+Qed.
